@@ -17,6 +17,9 @@ pub struct Case {
     pub items: Vec<Item>,
     pub sink: SinkSched,
     pub reread: ReaderCfg,
+    /// messages follow each other without noise and some payloads contain a frame marker
+    #[serde(default)]
+    pub embedded_markers: bool,
 }
 
 fn same_promised_fields(a: &DltMessage, b: &DltMessage) -> Option<String> {
@@ -66,8 +69,29 @@ impl Check for C02 {
     }
     fn generate(rng: &mut Rng, tier: Tier, idx: u64) -> Case {
         let mut wl = rng.sub("workload");
-        let (framing, items) = gen_items(&mut wl, tier, idx, true);
+        let (framing, mut items) = gen_items(&mut wl, tier, idx, true);
         let mut k = rng.sub("knobs");
+        // a well-formed stream may carry frame markers inside payloads (e.g. a transferred .dlt file):
+        // messages back to back, 1-3 payloads get a marker at a random offset
+        let mut e = rng.sub("embed");
+        let embedded_markers = e.chance(1, 4);
+        if embedded_markers {
+            items.retain(|it| matches!(it, Item::Msg(_)));
+            let n = items.len();
+            for _ in 0..e.urange(1, 3) {
+                if n == 0 {
+                    break;
+                }
+                let j = if e.chance(1, 2) { n - 1 } else { e.usize(n) };
+                if let Item::Msg(m) = &mut items[j] {
+                    if m.payload.len() >= 4 {
+                        let o = e.usize(m.payload.len() - 3);
+                        let mk: &[u8; 4] = if e.chance(3, 4) { b"DLT\x01" } else { b"DLS\x01" };
+                        m.payload[o..o + 4].copy_from_slice(mk);
+                    }
+                }
+            }
+        }
         let sink = SinkSched {
             seed: k.next_u64(),
             max: *k.pick(&[0usize, 1, 3, 7, 100, 5000]),
@@ -87,13 +111,17 @@ impl Check for C02 {
             items,
             sink,
             reread,
+            embedded_markers,
         }
     }
 
     fn run(c: &Case, ctx: &mut Ctx) -> Result<(), Violation> {
         let img = assemble(&c.items, c.framing);
-        if !markers_only_at_starts(&img) {
+        if !c.embedded_markers && !markers_only_at_starts(&img) {
             return Ok(());
+        }
+        if c.embedded_markers {
+            ctx.probe("streams_with_markers_inside_payloads");
         }
         let bounds: Arc<Vec<usize>> = Arc::new(img.msgs.iter().map(|(o, l)| o + l).collect());
         let bytes = Arc::new(img.bytes);
@@ -138,6 +166,9 @@ impl Check for C02 {
             ctx.event_u64(crate::rng::fnv1a(&b));
             if let Err(e) = m.to_write(&mut file1) {
                 viol!("write-error", "file write of message {}: {}", k, e);
+            }
+            if c.embedded_markers && m.payload.windows(4).any(|w| w == b"DLT\x01" || w == b"DLS\x01") {
+                ctx.probe("messages_with_embedded_marker_round_tripped");
             }
             if m.payload.len() > 60000 {
                 ctx.probe("near_max_payload");
@@ -207,7 +238,7 @@ impl Check for C02 {
     }
 
     fn rule() -> &'static str {
-        "one run = one generated well-formed stream (as C01); every parsed message is written through a scripted sink (short writes, EINTR), re-parsed and re-written; then the whole export is re-read through a scripted short-read reader and exported again; non-trivial = at least one message; distinct = hash of (#messages, first 4 KiB of the stream)"
+        "one run = one generated well-formed stream (as C01); in one run of four the messages follow each other without noise and 1-3 payloads carry a frame marker (whatever the reader recognises is the input set); every parsed message is written through a scripted sink (short writes, EINTR), re-parsed and re-written; then the whole export is re-read through a scripted short-read reader and exported again; non-trivial = at least one message; distinct = hash of (#messages, first 4 KiB of the stream)"
     }
     fn assumptions() -> Vec<&'static str> {
         vec![
@@ -227,6 +258,6 @@ impl Check for C02 {
         vec!["writer (ScriptedSink)", "reader (ScriptedSource)", "message producer"]
     }
     fn required_reach() -> Vec<&'static str> {
-        vec!["short_writes", "interrupted_writes", "near_max_payload"]
+        vec!["short_writes", "interrupted_writes", "near_max_payload", "streams_with_markers_inside_payloads", "messages_with_embedded_marker_round_tripped"]
     }
 }
